@@ -11,7 +11,7 @@ PROPS = {
     "C03": [("u_msubst", "quick"), ("u_munify", "quick"), ("u_tmono", "quick"), ("u_patlit", "quick"), ("u_numarms", "quick"), ("u_annot", "quick"), ("u_inst", "quick"), ("u_capt", "quick"), ("u_arrset", "quick"), ("u_fieldinst", "quick"), ("u_optypes", "quick"), ("u_mcall", "quick"), ("u_validty", "quick"), ("u_selfty", "quick"), ("u_concrete", "quick"), ("u_dynvis", "quick"), ("u_localcall", "quick"), ("u_inferctrl", "quick"), ("u_tunify", "quick"), ("u_substreport", "quick"), ("u_solveloop", "quick"), ("u_normshape", "quick"), ("u_decomp", "quick"), ("u_cmfields", "quick"), ("u_fnbody", "quick"), ("u_ctorty", "quick")],
     "C05": [("u_scope", "quick"), ("u_inferctrl", "quick"), ("u_anfren", "quick"), ("u_tyenv", "quick"), ("u_localalloc", "quick")],
     "C06": [("u_rows", "quick"), ("u_switch", "quick"), ("u_matchentry", "quick"), ("u_structpat", "quick"), ("u_rowdispatch", "quick"), ("u_intcase", "quick"), ("u_variantty", "quick"), ("u_dceblk", "quick"), ("u_decomp", "quick"), ("u_cmfields", "quick"), ("u_ctorty", "quick")],
-    "C19": [("u_goident", "quick"), ("u_reserved", "quick"), ("u_gensym", "quick"), ("u_varname", "quick"), ("u_genphase", "quick"), ("u_entryname", "quick"), ("u_implname", "quick"), ("u_envfield", "quick"), ("u_localname", "quick"), ("u_inhname", "quick"), ("u_gotypename", "quick"), ("u_instname", "quick"), ("u_anfren", "quick"), ("u_localalloc", "quick"), ("u_encodety", "quick"), ("u_refname", "quick"), ("u_dynnames", "quick"), ("u_envname", "quick")],
+    "C19": [("u_goident", "quick"), ("u_reserved", "quick"), ("u_gensym", "quick"), ("u_varname", "quick"), ("u_genphase", "quick"), ("u_entryname", "quick"), ("u_implname", "quick"), ("u_envfield", "quick"), ("u_localname", "quick"), ("u_inhname", "quick"), ("u_gotypename", "quick"), ("u_instname", "quick"), ("u_anfren", "quick"), ("u_localalloc", "quick"), ("u_encodety", "quick"), ("u_refname", "quick"), ("u_dynnames", "quick"), ("u_envname", "quick"), ("u_tuplehelper", "quick")],
     "C17": [("u_dynvis", "quick"), ("u_ceffect", "quick"), ("u_block", "quick"), ("u_inherent", "quick"), ("u_dynpayload", "quick"), ("u_dynimpl", "quick"), ("u_dynorigin", "quick"), ("u_dyngate", "quick"), ("u_traitname", "quick"), ("u_implname", "quick"), ("u_selfty", "quick"), ("u_concrete", "quick"), ("u_mtraitcall", "quick"), ("u_overload", "quick"), ("u_boundmeth", "quick"), ("u_dynreq", "quick"), ("u_inhname", "quick"), ("u_coerce", "quick"), ("u_fnbody", "quick"), ("u_traitlookup", "quick")],
     "C16": [("u_overload", "quick"), ("u_pkgallow", "quick"), ("u_orphan", "quick"), ("u_topo", "quick"), ("u_depenv", "quick"), ("u_cohere", "quick"), ("u_loadpkg", "quick"), ("u_scope", "quick"), ("u_deprec", "quick"), ("u_link", "quick"), ("u_tygate", "quick"), ("u_lowertype", "quick"), ("u_pathgate", "quick")],
     "C10": [("u_intlit", "quick"), ("u_dcefx", "quick"), ("u_tastlit", "quick"), ("u_golit", "quick"), ("u_cexpr", "quick"), ("u_numarms", "quick"), ("u_fmtverb", "quick"), ("u_corefloat", "quick"), ("u_floatlit", "quick"), ("u_intcase", "quick"), ("u_gotype", "quick"), ("u_imm", "quick"), ("u_goops", "quick"), ("u_dynpayload", "quick")],
